@@ -237,6 +237,48 @@ fn reply_sweep(thorough: bool) -> (u64, Vec<Violation>) {
             viol.extend(res);
         }
     }
+    // Blanks next to a separator outside quotes are insignificant: each reply below must have
+    // the outcome of its blank-free form, whatever that outcome is.
+    {
+        let forms: Vec<(&str, Vec<&str>)> = vec![
+            (",5", vec![" ,5", ", 5", "  ,  5 "]),
+            ("5,6", vec!["5 ,6", "5, 6", " 5 , 6 "]),
+            ("x,y", vec!["x ,y", "x, y"]),
+            ("\"yes\",", vec!["\"yes\" ,", "\"yes\", "]),
+            ("\"a\",\"b\"", vec!["\"a\" ,\"b\"", "\"a\", \"b\"", " \"a\" , \"b\" "]),
+            ("7:8", vec!["7 :8", "7: 8"]),
+            (",hello", vec!["  , hello"]),
+        ];
+        for t in &targets {
+            for (plain, variants) in &forms {
+                let run = |reply: &str| -> (Vec<String>, String) {
+                    let mut prog = ProgramAst::new();
+                    prog.insert(10, vec![Stmt::Input(t.clone())]);
+                    prog.insert(20, vec![Stmt::Print(vec![PItem::E(st("<")), PItem::Semi, PItem::E(var("X")), PItem::Semi, PItem::E(var("Y$")), PItem::Semi, PItem::E(call("A", vec![num(2.0)])), PItem::Semi, PItem::E(st(">"))])]);
+                    let lines = render_program(&prog);
+                    let mut s = Sess::new();
+                    let _ = load_program(&mut s, &lines);
+                    s.recs.clear();
+                    let mut it = vec![reply.to_string(), "7".to_string()].into_iter();
+                    let end = s.run_line("RUN", &mut it, 200);
+                    let tr: Vec<String> = subject_transcript(&s.recs).into_iter().filter(|x| !x.starts_with("reply:")).collect();
+                    (tr, format!("{:?}", end))
+                };
+                let want = run(plain);
+                for v in variants {
+                    count += 1;
+                    let got = run(v);
+                    if got != want {
+                        viol.push(Violation {
+                            signature: format!("reply {:?} to INPUT {} :: blanks next to a separator change the outcome", v, t.render()),
+                            detail: format!("reply {:?} gives {:?}; the same reply without those blanks ({:?}) gives {:?}", v, got, plain, want),
+                            case: case_program(&[format!("10 INPUT {}", t.render())], &[v.to_string(), "7".to_string()], 1),
+                        });
+                    }
+                }
+            }
+        }
+    }
     (count, viol)
 }
 
